@@ -11,6 +11,7 @@ import MediaSan.Lemmas.BufOnly
 import MediaSan.Lemmas.BitBridge
 import MediaSan.Lemmas.BufLoop
 import MediaSan.Lemmas.CodeHeight
+import MediaSan.Lemmas.BufValidator
 import MediaSan.Generated.Vp8lTables
 namespace MediaSan.Props.C19
 open MediaSan MediaSan.Vp8l
@@ -218,6 +219,30 @@ theorem C19_groups_ready (cfg : LCfg) (cache : Option Nat) : BSafe (readGroup cf
 /-- every code `CanonicalHuffmanTree::new` returns is within its `longest_code_len` -/
 theorem C19_code_height (lens : List (Nat × Nat)) (lenient : Bool) (c : Code) (h : newCode lens lenient = .ok c) :
     c.tree.height ≤ c.longest := newCode_height lens lenient c h
+
+/-! ### the whole validator -/
+
+/-- every prefix code the validator model reads - any payload, position, alphabet - is finalized, within its depth
+    and at most 15 bits long (lengths come from 3-bit fields, code-length symbols 0..15 or the last non-zero length;
+    the canonical assignment gives every symbol a code of exactly its length): what `read_huffman` needs of the
+    capacity, and what bounds the read-ahead of the sub-image loop by 81 bits -/
+theorem C19_codes_at_most_15_bits (cfg : LCfg) (alphabet : Nat) :
+    BSafe (readPrefixCode cfg alphabet) (CodeFits 15) := readPrefixCode_fits cfg alphabet
+
+/-- **Bit-buffer refills are transparent to the validator.**  `validateBuf cap` (Vp8l/BufValidator.lean) is the
+    lossless header-phase validator with EVERY read going through the model of `BitBufReader` with a buffer of `cap`
+    bytes - `read` / `read_bit` / `read_huffman` refilling on demand, the sub-image loop with its guarded refill and
+    buffer-only accessors; `validate` is the validator model over the whole byte string, the subject of the C07 / C08 /
+    C09 theorems.  For EVERY capacity of at least 11 bytes (the code uses 4096; the hook goes down to 16), every payload,
+    every declared size and configuration they give the same verdict: Ok, or the same error.  (Relation `RelL`,
+    function by function through all twelve functions of the validator, Lemmas/BufValidator.lean; the executable
+    `validateBuf` is also run by the driver against webpsan at every in-situ capacity.) -/
+theorem C19_validator_buffered (cap : Nat) (hcap : 11 ≤ cap) (data : Bytes) (width height : Nat) (cfg : LCfg) :
+    validateBuf cap data width height cfg = validate (BA data) width height cfg :=
+  validateBuf_eq cap hcap data width height cfg
+
+-- Non-vacuity: the 1x1 stream of the documentation example through a 16-byte buffer
+example : validateBuf 16 [0x88, 0x88, 0x08] 1 1 = .ok () := by decide +kernel
 
 -- Non-vacuity: a ready group, and the buffered loop really running over a 16-byte buffer (two literal pixels of a
 -- two-symbol green code, then the sub-image is complete)
